@@ -2,9 +2,13 @@
 
 Engine: vlib.sched + vlib.chanbench.  One real ``paramiko.Channel`` on a fake transport whose
 ``_send_user_message`` appends to the wire log and is a yield point.  1-3 application tasks
-(send / sendall(3 chunks) / send_stderr / shutdown_write / shutdown(2) / close / recv) and an
-optional transport task (peer WINDOW_ADJUST / DATA / EOF / CLOSE through the real handlers, as
-``Transport.run`` dispatches them) run under generated schedules; switch points: every
+(send / sendall(3 chunks) / send_stderr / shutdown_write / shutdown(2) / close / recv / channel requests that
+wait for the peer's answer: exec_command, invoke_shell, invoke_subsystem, get_pty / requests that do not:
+set_environment_variable, resize_pty) and an optional transport task (peer WINDOW_ADJUST / DATA / EOF / CLOSE /
+CHANNEL_SUCCESS / CHANNEL_FAILURE - unsolicited, or held back (virtual time) until a reply-wanting request of an
+application task is on the wire - / CHANNEL_REQUEST exit-status|unknown with and without want_reply, all through the
+real handlers, as ``Transport.run`` dispatches them; "settle" = the next peer message arrives once every application
+task is finished or blocked for good; the transport task is first or last in the task order) run under generated schedules; switch points: every
 lock/condition/event operation, the send point, and (optionally) every source line of the
 send/close paths of channel.py.
 
@@ -30,19 +34,21 @@ PROPERTY = "C22"
 LEVEL = "exploration"
 THOROUGH_WORKERS = 16
 RULE = (
-    "1-3 application tasks x 1-3 ops (send n, sendall 3 chunks, send_stderr n, shutdown_write, shutdown(2), close, recv) "
-    "+ optional transport task (<=3 of peer WINDOW_ADJUST/DATA/EOF/CLOSE) on a real Channel over a fake transport (wire log, "
+    "1-3 application tasks x 1-3 ops (send n, sendall 3 chunks, send_stderr n, shutdown_write, shutdown(2), close, recv, reply-wanting "
+    "request exec/shell/subsystem/pty, request without reply env/window-change) "
+    "+ optional transport task (<=4 of peer WINDOW_ADJUST/DATA/EOF/CLOSE/SUCCESS|FAILURE (unsolicited or answering a pending request)/"
+    "REQUEST exit-status|unknown x want_reply/settle = wait for quiescence of the applications; transport task first|last in task order) on a real Channel over a fake transport (wire log, "
     "send point = yield point), window in {0,10,2^21}, timeout {0.5,None}; schedules: generated preemption list (<=3 anywhere + "
     "<=2 placed at the n-th switch point between lock release and transmission) in quick; thorough adds all schedules with <=3 "
     "preemptions (lock-level + send point) of every 2-task program with <=2 ops each over a 9-op alphabet and 6 selected 3-task "
-    "programs, and all <=2-preemption line-level schedules of the single-op pairs; non-trivial = a task switch happened between "
+    "programs and 8 selected request/reply programs, and all <=2-preemption line-level schedules of the single-op pairs; non-trivial = a task switch happened between "
     "a lock release in _send/close/shutdown/_handle_close and the corresponding transmission; distinct by SHA-1 of the case"
 )
 
 CHUNK = 4096 - 64
 SENDALL3 = 2 * CHUNK + 1
 
-app_op = st.one_of(
+data_close_op = st.one_of(
     st.tuples(st.just("send"), st.integers(1, 20)),
     st.tuples(st.just("send"), st.integers(1, 20)),
     st.tuples(st.just("sendall3")),
@@ -53,19 +59,42 @@ app_op = st.one_of(
     st.tuples(st.just("close")),
     st.tuples(st.just("recv"), st.integers(1, 8)),
 )
-peer_op = st.one_of(
+request_op = st.one_of(
+    st.tuples(st.just("req"), st.sampled_from(["exec", "shell", "subsystem", "pty"])),
+    st.tuples(st.just("req"), st.sampled_from(["exec", "shell", "subsystem", "pty"])),
+    st.tuples(st.just("req_nr"), st.sampled_from(["env", "resize"])),
+)
+# two levels, so that the request dimension does not thin out the data/close interleavings (3 : 1)
+app_op = st.one_of(data_close_op, data_close_op, data_close_op, request_op)
+stream_peer_op = st.one_of(
     st.tuples(st.just("adjust"), st.sampled_from([0, 5, 10000])),
+    st.tuples(st.just("adjust"), st.sampled_from([1, 5, 10000])),
     st.tuples(st.just("peer_data"), st.integers(1, 5)),
     st.tuples(st.just("peer_eof")),
     st.tuples(st.just("peer_close")),
     st.tuples(st.just("peer_close")),
+    # the peer's next message arrives at quiescence: every application task is finished or blocked for good
+    # (blocked senders / requesters / readers included) - the complement of "racing the applications"
+    st.tuples(st.just("settle")),
 )
+request_peer_op = st.one_of(
+    # ("reply", ok, wait): CHANNEL_SUCCESS / CHANNEL_FAILURE; wait = hold it back until an unanswered reply-wanting
+    # request of an application task is on the wire (or a virtual 5 s have passed), else it is unsolicited
+    st.tuples(st.just("reply"), st.booleans(), st.booleans()),
+    st.tuples(st.just("reply"), st.booleans(), st.booleans()),
+    st.tuples(st.just("peer_req"), st.sampled_from(["exit-status", "unknown@verif"]), st.booleans()),
+)
+peer_op = st.one_of(stream_peer_op, stream_peer_op, request_peer_op)
 
 case_st = st.fixed_dictionaries(
     {
         "win": st.sampled_from([2 ** 21, 2 ** 21, 10, 0]),
         "timeout": st.sampled_from([0.5, 0.5, None]),
-        "peer": st.lists(peer_op, max_size=3),
+        "peer": st.lists(peer_op, max_size=4),
+        # position of the transport task in the task order: with the default continuation of a schedule (run the current
+        # task until it blocks, then the first runnable one) "first" makes peer messages arrive before the applications
+        # act, "last" after they have finished or blocked
+        "torder": st.sampled_from(["first", "last"]),
         "apps": st.lists(st.lists(app_op, min_size=1, max_size=3), min_size=1, max_size=3),
         "sched": S.schedule_strategy(max_pre=3, max_gap=50, max_forced=12, max_hot=2, hot_range=10),
         "trace": st.booleans(),
@@ -76,7 +105,8 @@ TRACED = {
     "send", "send_stderr", "sendall", "sendall_stderr", "_send", "_wait_for_send_window", "close", "_close_internal", "_send_eof",
     "_handle_close", "_handle_eof", "shutdown", "shutdown_write", "_set_closed", "_request_failed", "_unlink",
 }
-CRIT_FUNCS = {"_send", "close", "shutdown", "_handle_close"}
+CRIT_FUNCS = {"_send", "close", "shutdown", "_handle_close", "_request_failed"}
+REPLY_WAIT = 5.0  # virtual seconds a held-back SUCCESS/FAILURE waits for a request to answer
 
 
 def in_critical(tag):
@@ -100,6 +130,8 @@ class Bench:
         self.peer_close_dispatched = False
         self.op_exc = []
         self.excluded_spin = 0
+        self.answered = 0
+        self.reply_classes = set()
         # observation points inside the lock-held regions (instance-level wrappers, no change of behaviour)
         real_wait = chan._wait_for_send_window
         real_eof = chan._send_eof
@@ -153,7 +185,34 @@ class Bench:
                 chan.close()
             elif k == "recv":
                 chan.recv(op[1])
+            elif k == "req":
+                if op[1] == "exec":
+                    chan.exec_command(b"cmd")
+                elif op[1] == "shell":
+                    chan.invoke_shell()
+                elif op[1] == "subsystem":
+                    chan.invoke_subsystem("sub")
+                else:
+                    chan.get_pty()
+            elif k == "req_nr":
+                if op[1] == "env":
+                    chan.set_environment_variable("A", "b")
+                else:
+                    chan.resize_pty(100, 30)
+            elif k == "reply":
+                self.reply(bool(op[1]), bool(op[2]))
+            elif k == "peer_req":
+                if op[1] == "exit-status":
+                    ft.deliver(CB.MSG_CHANNEL_REQUEST, 1, b"exit-status", bool(op[2]), 7)
+                else:
+                    ft.deliver(CB.MSG_CHANNEL_REQUEST, 1, op[1].encode(), bool(op[2]))
+            elif k == "settle":
+                self.s.let_others_run("peer-message-at-quiescence")
+                self.reply_classes.add("peer-message-at-quiescence-of-applications")
             elif k == "adjust":
+                if op[1] and any(t.state == "blocked" and t.reason == ("cond", "chan.out_buffer_cv") for t in self.s.tasks):
+                    state = "after-own-close" if chan.closed else ("after-own-eof" if chan.eof_sent else "open")
+                    self.reply_classes.add("window-adjust-reaches-blocked-writer:" + state)
                 ft.deliver(CB.MSG_CHANNEL_WINDOW_ADJUST, 1, op[1])
             elif k == "peer_data":
                 ft.deliver(CB.MSG_CHANNEL_DATA, 1, bytes([salt]) * op[1])
@@ -169,13 +228,31 @@ class Bench:
         except Exception as e:  # outcome of the operation; C22 judges the wire, not the call results
             self.op_exc.append((tname, k, type(e).__name__))
 
+    def _unanswered(self):
+        return sum(1 for w in self.ft.wire if w["type"] == "REQUEST" and w.get("want_reply")) - self.answered
+
+    def reply(self, ok, wait):
+        """Peer CHANNEL_SUCCESS / CHANNEL_FAILURE through the real handler (transport task)."""
+        ft, chan = self.ft, self.chan
+        if wait and self._unanswered() <= 0:
+            self.s.block_until(lambda: self._unanswered() > 0, ("await-request-to-answer",), timeout=REPLY_WAIT)
+        solicited = self._unanswered() > 0
+        if solicited:
+            self.answered += 1
+        kind = "success" if ok else "failure"
+        state = "after-own-close" if chan.closed else ("after-own-eof" if chan.eof_sent else "open")
+        if ft.deliver(CB.MSG_CHANNEL_SUCCESS if ok else CB.MSG_CHANNEL_FAILURE, 1):
+            self.reply_classes.add("peer-%s:%s:%s" % (kind, "answers-pending-request" if solicited else "unsolicited", state))
+        else:
+            self.reply_classes.add("peer-%s:channel-already-released" % kind)
+
     def run(self, case):
         s = self.s
         tasks = []
-        if case["peer"]:
-            tasks.append(("transport", [tuple(o) for o in case["peer"]]))
         for i, ops in enumerate(case["apps"]):
             tasks.append(("app%d" % i, [tuple(o) for o in ops]))
+        if case["peer"]:
+            tasks.insert(len(tasks) if case.get("torder") == "last" else 0, ("transport", [tuple(o) for o in case["peer"]]))
 
         def mk(tname, ops, base):
             def body():
@@ -304,6 +381,9 @@ def judge(bench, res):
         classes.add("data-sent")
     for _t, k, en in bench.op_exc:
         classes.add("op-raised:%s" % en)
+    classes.update(bench.reply_classes)
+    if any(t == "REQUEST" for t in types):
+        classes.add("request-sent")
     return viol, classes, crit > 0
 
 
@@ -315,6 +395,8 @@ def execute(ctx, case, strategy=None, extra_classes=()):
     if strategy is not None and isinstance(strategy, S.DFSStrategy):
         case = dict(case)
         case["sched"] = {"dfs": [t[2] for t in strategy.trace]}
+    if case["peer"]:
+        classes.add("transport-task-" + ("last" if case.get("torder") == "last" else "first"))
     ctx.case(case, nontrivial, sorted(classes) + list(extra_classes))
     if b.excluded_spin:
         ctx.exclude("C25:sendall-would-spin-after-eof_sent(loop ended by the harness)", b.excluded_spin)
@@ -361,6 +443,19 @@ THREE_TASK = [
 ]
 
 
+W21 = 2 ** 21
+REQ_PROGS = [
+    {"win": W21, "timeout": 0.5, "peer": [("reply", False, False)], "apps": [[("close",)]]},
+    {"win": W21, "timeout": 0.5, "peer": [("reply", False, True)], "apps": [[("req", "exec")], [("close",)]]},
+    {"win": W21, "timeout": 0.5, "peer": [("reply", True, True)], "apps": [[("req", "shell")], [("close",)]]},
+    {"win": W21, "timeout": 0.5, "peer": [("reply", False, True), ("peer_close",)], "apps": [[("req", "subsystem")], [("shutdown2",)]]},
+    {"win": W21, "timeout": 0.5, "peer": [("reply", False, False)], "apps": [[("send", 5)], [("shutdown_write",)]]},
+    {"win": W21, "timeout": 0.5, "peer": [("peer_close",), ("reply", False, False)], "apps": [[("req", "exec")]]},
+    {"win": W21, "timeout": 0.5, "peer": [("reply", False, True), ("reply", False, False)], "apps": [[("req", "pty"), ("close",)]]},
+    {"win": W21, "timeout": 0.5, "peer": [("peer_req", "unknown@verif", True), ("reply", False, False)], "apps": [[("send", 5), ("close",)]]},
+]
+
+
 def run_dfs(ctx, programs, k, trace, limit, label):
     complete = True
     for prog in programs:
@@ -389,23 +484,26 @@ def run_dfs(ctx, programs, k, trace, limit, label):
 
 def run(ctx):
     ctx.set_budget(60, 840)
-    ctx.explore(case_st, lambda c: execute(ctx, c), ctx.scale(4000, 30000))
+    ctx.explore(case_st, lambda c: execute(ctx, c), ctx.scale(5000, 30000))
     if ctx.tier == "thorough":
         p2 = dfs_programs(2)
         ok1 = run_dfs(ctx, p2[ctx.worker :: ctx.nworkers], 3, False, 300000, "k3-2task")
         ok2 = run_dfs(ctx, THREE_TASK[ctx.worker :: ctx.nworkers], 3, False, 300000, "k3-3task")
         p1 = dfs_programs(1)
         ok3 = run_dfs(ctx, p1[ctx.worker :: ctx.nworkers], 2, True, 300000, "k2-lines")
-        ctx.exhaustive = bool(ok1 and ok2 and ok3)
+        ok4 = run_dfs(ctx, REQ_PROGS[ctx.worker :: ctx.nworkers], 3, False, 300000, "k3-requests")
+        ctx.exhaustive = bool(ok1 and ok2 and ok3 and ok4)
         ctx.note(
             "dfs_domain",
-            "%d two-task programs (<=2 ops each, 6 app ops + 3 peer ops) and %d selected three-task programs: all schedules with <=3 preemptions "
-            "(lock-level + send point); %d single-op pairs: all schedules with <=2 preemptions at line level" % (len(p2), len(THREE_TASK), len(p1)),
+            "%d two-task programs (<=2 ops each, 6 app ops + 3 peer ops), %d selected three-task programs and %d selected request/reply programs: all "
+            "schedules with <=3 preemptions (lock-level + send point); %d single-op pairs: all schedules with <=2 preemptions at line level"
+            % (len(p2), len(THREE_TASK), len(REQ_PROGS), len(p1)),
         )
     else:
         p1 = dfs_programs(1)
         step = max(1, len(p1) // 6)
         run_dfs(ctx, p1[(ctx.seed % step) :: step][:6], 2, False, 400, "k2-quick")
+        run_dfs(ctx, [REQ_PROGS[ctx.seed % len(REQ_PROGS)], REQ_PROGS[(ctx.seed + 3) % len(REQ_PROGS)]], 2, False, 300, "k2-quick-requests")
 
 
 def replay(ctx, case):
